@@ -25,7 +25,7 @@ func init() {
 			"online monitor of builder [entry,exit] intervals per key; distinct_nontrivial = distinct (config, schedule signature) of runs in which >=2 Gets for a key were in flight while a builder for it was active",
 		Required:    []string{"runs.steered", "runs.free", "runs.contended", "builds", "bg.builds", "api.Failover", "api.FailoverOf"},
 		Assumptions: []string{"builder intervals are delimited by harness code (entry/exit events under one mutex)", "steered executor relies on runtime.Stack status strings; malfunction yields 'inconclusive', never a verdict"},
-		Timeout:     func(string) time.Duration { return 25 * time.Minute },
+		Timeout:     func(string) time.Duration { return 45 * time.Minute },
 	})
 	register(&Engine{
 		ID:       "C02",
@@ -37,7 +37,7 @@ func init() {
 			"distinct_nontrivial = distinct (config, schedule signature) of runs with a waiter, an early-return path or an injected fault",
 		Required:    []string{"runs.steered", "runs.free", "gets", "waiters.served", "faults.injected", "results.stale_served", "results.error", "api.Failover", "api.FailoverOf"},
 		Assumptions: []string{"tokens are unique per run; zero values are never produced by the harness"},
-		Timeout:     func(string) time.Duration { return 25 * time.Minute },
+		Timeout:     func(string) time.Duration { return 45 * time.Minute },
 	})
 	register(&Engine{
 		ID:       "C04",
@@ -49,12 +49,12 @@ func init() {
 			"distinct_nontrivial = distinct (config, schedule signature) of runs with a background build or a waiter",
 		Required:    []string{"runs.steered", "runs.free", "followups", "bg.builds", "misbehaviour.mutate", "misbehaviour.cancel", "api.Failover", "api.FailoverOf"},
 		Assumptions: []string{"'Get always completes' is checked as logical deadlock freedom on the explored schedules (finite runs cannot decide unbounded liveness)"},
-		Timeout:     func(string) time.Duration { return 25 * time.Minute },
+		Timeout:     func(string) time.Duration { return 45 * time.Minute },
 	})
 }
 
 func runFoGeneric(b *Batch, prop string) {
-	n := b.Pick(map[string]int{"C01": 4800, "C02": 1600, "C04": 4800}[prop], map[string]int{"C01": 160000, "C02": 48000, "C04": 160000}[prop]) / b.NBatches
+	n := b.Pick(map[string]int{"C01": 4800, "C02": 1600, "C04": 4800}[prop], map[string]int{"C01": 960000, "C02": 240000, "C04": 960000}[prop]) / b.NBatches
 	for i := 0; i < n; i++ {
 		if b.Skip(i) {
 			continue
